@@ -3,6 +3,9 @@ package checks
 import (
 	"context"
 	"fmt"
+	"github.com/vimeo/dials/sourcewrap"
+	"github.com/vimeo/dials/tagformat"
+	"github.com/vimeo/dials/tagformat/caseconversion"
 	"strings"
 	"sync"
 	"sync/atomic"
@@ -83,7 +86,18 @@ func c04InitialFP(e *conc.Env) conc.FP {
 // c04Start starts an env and checks the initial-verification clause.
 // Returns nil when the scenario legitimately ended at Config.
 func c04Start(w *fw.Worker, i int, r *fw.Rand, o conc.Opts) *conc.Env {
-	e, err := conc.Start(context.Background(), r.U64(), o, c04InitLayers(r, 12))
+	// a third of the scenarios put the last source behind a (tag-only) transforming wrapper, as tagformat's
+	// ReformatDialsTagSource does: the watcher then talks to the wrapper's WatchArgs
+	wrapLast := o.NSrc >= 2 && r.Chance(33)
+	wrapped := 0
+	e, err := conc.StartWith(context.Background(), r.U64(), o, c04InitLayers(r, 12), func(k int, def dials.Source) dials.Source {
+		if wrapLast && k == o.NSrc-1 {
+			wrapped = k
+			return sourcewrap.NewTransformingSource(def, tagformat.NewTagReformattingMangler("dials", caseconversion.DecodeGoTags, caseconversion.EncodeKebabCase))
+		}
+		return def
+	})
+	e.Wrapped = wrapped
 	initFP := c04InitialFP(e)
 	mustFail := !o.Skip && !o.Delay && !conc.ValidFP(initFP)
 	if mustFail {
@@ -154,6 +168,9 @@ func c04Sequential(w *fw.Worker, i int, r *fw.Rand) {
 			src = o.NSrc - 1
 		}
 		l := e.RandLayer(r, 30, 8)
+		if e.Wrapped != 0 && src == e.Wrapped {
+			l.IllTyped = false
+		}
 		if st.Verifying && r.Chance(8) {
 			// the reporter gives up while the monitor is inside Verify for its value; the monitor finishes the update
 			// anyway, and the same source's NEXT blocking report must get its own answer, not this one's
@@ -472,6 +489,9 @@ func c04Concurrent(w *fw.Worker, i int, r *fw.Rand) {
 			}()
 			for k := 0; k < nops; k++ {
 				l := e.RandLayer(rr, 30, 6)
+				if e.Wrapped != 0 && s == e.Wrapped {
+					l.IllTyped = false
+				}
 				blocking := rr.Chance(65)
 				var res int
 				if !blocking {
